@@ -382,7 +382,7 @@ class Runaway(Exception):
     """Raised by the wrapper when the fit makes more update calls than K(2·max+1) + 3."""
 
 
-def _fit_once(case, normalize, record, est=None):
+def _fit_once(case, normalize, record, est=None, opts=None):
     """One seeded fit with `_update_components` / `_initialize_vectors` wrapped from outside."""
     from FDApy.preprocessing.dim_reduction import fcp_tpa
     from FDApy.representation.argvals import DenseArgvals
@@ -461,8 +461,9 @@ def _fit_once(case, normalize, record, est=None):
         fcp_tpa._update_vector, fcp_tpa._compute_denominator = wrap_uv, wrap_cd
     _fit_once.last_inner = (upd_calls, den_calls)
     fcp_tpa._update_components, fcp_tpa._initialize_vectors = wrap_u, wrap_i
+    opts = opts or {}
     if est is None:
-        est = fcp_tpa.FCPTPA(n_components=case["K"], normalize=normalize)
+        est = fcp_tpa.FCPTPA(n_components=opts.get("K", case["K"]), normalize=opts.get("normalize", normalize))
     n_warn = 0
     try:
         np.random.seed(case["seed"])
@@ -473,7 +474,8 @@ def _fit_once(case, normalize, record, est=None):
                     fd,
                     penalty_matrices={"v": _penalty(case, m1, "v"), "w": _penalty(case, m2, "w")},
                     alpha_range={"v": tuple(case["ar_v"]), "w": tuple(case["ar_w"])},
-                    tolerance=case["tol"], max_iteration=case["max"], adapt_tolerance=case["adapt"],
+                    tolerance=opts.get("tol", case["tol"]), max_iteration=opts.get("max", case["max"]),
+                    adapt_tolerance=opts.get("adapt", case["adapt"]),
                 )
         n_warn = sum(1 for w in ws if "did not converge" in str(w.message))
     finally:
@@ -620,6 +622,32 @@ def run_impl(case):
         and np.array_equal(np.asarray(est_h2.transform(fd, method="NumInt")), np.asarray(out["numint"]), equal_nan=True)
         and np.array_equal(np.asarray(est_h2.inverse_transform(S4).values), rec, equal_nan=True)
     )
+    # --- option VALUES of other-but-equivalent types (np.bool_ / 0-1 int, NumPy scalars, 0-d and 1-element arrays):
+    # same results as with the plain Python values; the caller's option objects are not modified; the SAME objects
+    # reused in a second call give the same results
+    pick = case["seed"] % 3
+    tol_obj = [np.float64(case["tol"]), np.array(case["tol"]), np.array([case["tol"]])][pick]
+    max_obj = [np.int64(case["max"]), np.array(case["max"]), np.int32(case["max"])][pick]
+    opts = dict(normalize=np.bool_(True) if pick != 1 else 1, adapt=np.bool_(case["adapt"]) if pick != 2 else int(case["adapt"]),
+                tol=tol_obj, max=max_obj, K=np.int64(case["K"]))
+    before = (np.array(tol_obj, copy=True), np.array(max_obj, copy=True))
+    typed = {}
+    try:
+        est5, fd5, _, calls5, _, _ = _fit_once(case, True, False, opts=opts)
+        S5, E5 = np.asarray(est5.transform(fd5, method="FCPTPA")), np.asarray(est5.eigenfunctions.values)
+        typed["same"] = bool(len(calls5) == len(calls3) and np.array_equal(S5, S3, equal_nan=True) and np.array_equal(E5, E3, equal_nan=True)
+                             and np.array_equal(est5.eigenvalues, est3.eigenvalues, equal_nan=True))
+        typed["options_unchanged"] = bool(np.array_equal(before[0], np.asarray(tol_obj)) and np.array_equal(before[1], np.asarray(max_obj)))
+        est6, fd6, _, calls6, _, _ = _fit_once(case, True, False, opts=opts)  # the very same option objects again
+        S6, E6 = np.asarray(est6.transform(fd6, method="FCPTPA")), np.asarray(est6.eigenfunctions.values)
+        typed["reused_same"] = bool(len(calls6) == len(calls5) and np.array_equal(S6, S5, equal_nan=True) and np.array_equal(E6, E5, equal_nan=True))
+    except Runaway as e:
+        typed["error"] = "Runaway: " + str(e)
+    except Exception as e:  # noqa: BLE001
+        typed["error"] = type(e).__name__ + ": " + str(e)[:100]
+    typed["kinds"] = dict(tol=type(tol_obj).__name__ + (str(np.shape(tol_obj)) if isinstance(tol_obj, np.ndarray) else ""), max=type(max_obj).__name__,
+                          normalize=type(opts["normalize"]).__name__, adapt=type(opts["adapt"]).__name__)
+    out["typed"] = typed
     # --- ties between a recorded ratio and a tolerance level
     tie = False
     tol = F(case["tol"])
@@ -867,6 +895,16 @@ def oracle(case, impl):
         bad("terminates", f"{impl['total_calls']} updates for {case['K']} components > K(2*{mx}+1)")
     if not impl["repro"]:
         bad("reproducible", "two fits under the same global seed differ")
+    ty = impl.get("typed", {})
+    if ty.get("error"):
+        bad("option_types", f"options given as {ty.get('kinds')} are not accepted although the plain values are: {ty['error']}", causes=["option_value_type"])
+    else:
+        if not ty.get("same", True):
+            bad("option_types", f"options given as {ty.get('kinds')} change the results w.r.t. the plain Python values (normalize=True run)", causes=["option_value_type"])
+        if not ty.get("options_unchanged", True):
+            bad("input_unchanged", f"fit modified the caller's option objects ({ty.get('kinds')})", causes=["option_object_mutated"])
+        if not ty.get("reused_same", True):
+            bad("reproducible", f"a second fit with the SAME option objects ({ty.get('kinds')}) under the same seed differs from the first", causes=["option_object_mutated"])
     if not impl.get("readonly_ok", True):
         bad("readonly_calls", "transform / inverse_transform on other data changed the fitted state or later results", "FCPTPA.transform", causes=["state_written_by_transform"])
     if not impl.get("data_unchanged", True):
